@@ -50,7 +50,7 @@ type model struct {
 	proposer common.Address
 	rescale  bool
 
-	clipped bool // some operation of the last action left the int64 range (the specification clips there)
+	clipped bool // some operation left the int64 range since the flag was last reset (the specification clips there)
 	fired   bool // the window step of the last action actually divided
 }
 
@@ -204,7 +204,7 @@ func (m *model) round() *mval {
 }
 
 func (m *model) increment(times int64) {
-	m.fired, m.clipped = false, false
+	m.fired = false
 	m.window()
 	m.centre()
 	var p *mval
@@ -274,7 +274,7 @@ func (m *model) classify(changes []chg) []string {
 
 // update applies a change set that classify() found valid. It returns the set of newcomers.
 func (m *model) update(changes []chg) map[common.Address]bool {
-	m.fired, m.clipped = false, false
+	m.fired = false
 	newcomers := map[common.Address]bool{}
 	u := m.total()
 	for _, c := range changes {
